@@ -88,8 +88,14 @@ def classify_vmslot(line):
             # deleted slot's entry, INSERT steps the cursor back, the following NEXT returns to that entry with another current slot, and the
             # next store into the map (TEMP_COPY, the end-of-rule store) overwrites the only reference collectGarbage could have found (F52)
             nxt = next((i for i in range(de[-1] + 1, len(toks)) if toks[i].startswith('P')), len(toks))
-            later = [t for t in toks[de[-1] + 1:nxt] if (t.startswith('i') and t[1:2].isdigit()) or t.startswith('tc')]
-            if later and any(t.startswith('i') and t[1:2].isdigit() for t in later):
+            prv = max([i for i in range(0, de[-1]) if toks[i].startswith('P')] + [0])
+            span = toks[prv:nxt]                                  # the events of the rule that deleted the ghost
+            isdel = lambda t: t.startswith('d') and t[1:].isdigit()
+            isins = lambda t: t.startswith('i') and t[1:2].isdigit()
+            firstdel = next((i for i, t in enumerate(span) if isdel(t)), None)
+            # an INSERT after a DELETE anywhere in that rule puts the map cursor and the current slot out of step: whatever is deleted from
+            # then on (this slot or a later one) is not the slot the cursor's entry names
+            if firstdel is not None and any(isins(t) for t in span[firstdel + 1:]):
                 causes.add('ghost-after-delete-followed-by-insert-in-the-same-rule')
             else:
                 return None
